@@ -21,6 +21,7 @@ import (
 
 	schedulingv1alpha2 "github.com/NVIDIA/KAI-scheduler/pkg/apis/scheduling/v1alpha2"
 	"github.com/NVIDIA/KAI-scheduler/pkg/scheduler/api/common_info"
+	"github.com/NVIDIA/KAI-scheduler/pkg/scheduler/api/node_info"
 	"github.com/NVIDIA/KAI-scheduler/pkg/scheduler/api/pod_info"
 	"github.com/NVIDIA/KAI-scheduler/pkg/scheduler/api/pod_status"
 	"github.com/NVIDIA/KAI-scheduler/pkg/scheduler/framework"
@@ -499,5 +500,111 @@ func (h *ClaimHistory) Classify(msgs []string) []string {
 		}
 		out = append(out, m)
 	}
+	return out
+}
+
+// ---------------------------------------------------------------- GPU-class claims (pods whose GPUs are DRA devices)
+
+// isGpuName is the scheduler's documented rule (pkg/common/resources.IsGPUDeviceClass), restated: a device class / a
+// slice driver whose name contains "gpu" is a GPU class / driver.
+func isGpuName(s string) bool { return strings.Contains(strings.ToLower(s), "gpu") }
+
+// draGpuCapacity recomputes the GPU capacity of a node from API objects: nvidia.com/gpu of the node object plus the
+// devices of the ResourceSlices of that node whose driver is a GPU driver. ok=false for cases without DRA objects.
+func draGpuCapacity(ssn *framework.Session, ni *node_info.NodeInfo) (float64, bool) {
+	mgr := draManager(ssn)
+	if mgr == nil || ni.Node == nil {
+		return 0, false
+	}
+	slices, err := mgr.ResourceSlices().ListWithDeviceTaintRules()
+	if err != nil {
+		return 0, false
+	}
+	n := 0.0
+	if q, ok := ni.Node.Status.Allocatable["nvidia.com/gpu"]; ok {
+		n = float64(q.Value())
+	}
+	for _, s := range slices {
+		if s.Spec.NodeName != nil && *s.Spec.NodeName == ni.Name && isGpuName(s.Spec.Driver) {
+			n += float64(len(s.Spec.Devices))
+		}
+	}
+	return n, true
+}
+
+// CheckDraGpuRequests recomputes, for every pod of the session, how many GPUs it requests through ResourceClaims
+// (API objects of the snapshot: every request of a GPU device class counts its ExactCount, "All" counts 1 - the
+// documented bookkeeping rule) and compares with what the scheduler charges: PodInfo.ResReq for every pod,
+// PodInfo.AcceptedResource for a pod that holds a place on a node. These numbers feed node, workload and queue
+// accounting; the other C14 oracles take them from the PodInfo.
+func CheckDraGpuRequests(ssn *framework.Session, st map[string]int) []string {
+	if !DRAEnabled || ssn == nil || ssn.ClusterInfo == nil {
+		return nil
+	}
+	api := map[string]*resourceapi.ResourceClaim{}
+	gpuClaims := 0
+	for _, c := range ssn.ClusterInfo.ResourceClaims {
+		api[c.Namespace+"/"+c.Name] = c
+		for _, r := range c.Spec.Devices.Requests {
+			if r.Exactly != nil && isGpuName(r.Exactly.DeviceClassName) {
+				gpuClaims++
+				break
+			}
+		}
+	}
+	if gpuClaims == 0 {
+		return nil
+	}
+	var out []string
+	seen := map[common_info.PodID]bool{}
+	check := func(t *pod_info.PodInfo) {
+		if t == nil || t.Pod == nil || seen[t.UID] {
+			return
+		}
+		seen[t.UID] = true
+		want := int64(0)
+		for i := range t.Pod.Spec.ResourceClaims {
+			c := api[t.Namespace+"/"+podClaimName(t.Pod, &t.Pod.Spec.ResourceClaims[i])]
+			if c == nil {
+				continue
+			}
+			for _, r := range c.Spec.Devices.Requests {
+				if r.Exactly == nil || !isGpuName(r.Exactly.DeviceClassName) {
+					continue
+				}
+				switch {
+				case r.Exactly.AllocationMode == resourceapi.DeviceAllocationModeAll:
+					want++
+				case r.Exactly.Count > 0:
+					want += r.Exactly.Count
+				default:
+					want++
+				}
+			}
+		}
+		st["dra_gpu_request_comparisons"]++
+		if want > 0 {
+			st["dra_gpu_pods_seen_"+t.Status.String()]++
+		}
+		if got := t.ResReq.GetDraGpusCount(); got != want {
+			out = append(out, fmt.Sprintf("task %s dra-gpu-request: scheduler has %d GPUs from resource claims in ResReq, recomputed %d from the claims of the pod", t.Name, got, want))
+		}
+		if pod_status.IsActiveUsedStatus(t.Status) && t.NodeName != "" && t.AcceptedResource != nil {
+			if got := t.AcceptedResource.GetDraGpusCount(); got != want {
+				out = append(out, fmt.Sprintf("task %s dra-gpu-accepted: pod is %v on node %s and is charged %d GPUs from resource claims (AcceptedResource), recomputed %d", t.Name, t.Status, t.NodeName, got, want))
+			}
+		}
+	}
+	for _, job := range ssn.ClusterInfo.PodGroupInfos {
+		for _, t := range job.GetAllPodsMap() {
+			check(t)
+		}
+	}
+	for _, ni := range ssn.ClusterInfo.Nodes {
+		for _, t := range ni.PodInfos {
+			check(t)
+		}
+	}
+	sort.Strings(out)
 	return out
 }
